@@ -38,3 +38,48 @@ package policy
 //@   ensures result0 == sem(cur, node)
 //@   ensures (result0 == 1 || result0 == 2) ==> leafMost != nil
 //@   ensures 0 <= result0 && result0 <= 3
+//@
+//@ // ---- like / glob -----------------------------------------------------------------------------
+//@ // globM(p, s, i, j): the suffix s[j:] belongs to the language of the pattern suffix p[i:]
+//@ // (unescaped * = any sequence, backslash + c = the literal c, any other character = itself).
+//@ pure func globM(p string, s string, i int, j int) bool =
+//@     (i < 0 || j < 0 || j > len(s)) ? false
+//@   : i >= len(p) ? j == len(s)
+//@   : p[i] == '*' ? (globM(p, s, i+1, j) || (j < len(s) && globM(p, s, i, j+1)))
+//@   : (p[i] == 92 && i+1 < len(p)) ? (j < len(s) && s[j] == p[i+1] && globM(p, s, i+2, j+1))
+//@   : (j < len(s) && s[j] == p[i] && globM(p, s, i+1, j+1))
+//@
+//@ // a star can absorb: if the star at a matches from m, the rest matches from some k >= m
+//@ lemma star_absorbs(p string, s string, a int, m int):
+//@     0 <= a && a < len(p) && p[a] == '*' && 0 <= m && m <= len(s) && globM(p, s, a, m)
+//@     ==> (exists k int :: m <= k && k <= len(s) && globM(p, s, a+1, k)) by induction on len(s) - m
+//@   trigger globM(p, s, a, m)
+//@ // a star can start earlier
+//@ lemma star_earlier(p string, s string, a int, m int, x int):
+//@     0 <= a && a < len(p) && p[a] == '*' && 0 <= m && m <= x && x <= len(s) && globM(p, s, a, x)
+//@     ==> globM(p, s, a, m) by induction on x - m
+//@   trigger globM(p, s, a, x), globM(p, s, a, m)
+//@
+//@ func (glob).Match
+//@   ensures [C13] language: result == globM(string(pattern), str, 0, 0)
+//@   assigns [C20] nothing
+//@   use star_absorbs, star_earlier
+//@   loop 0: invariant 0 <= i && i <= len(pattern) && 0 <= j && j <= len(str) && -1 <= starIdx && starIdx < i && matchIdx <= j
+//@           invariant starIdx == -1 ==> matchIdx == -1 && globM(string(pattern), str, 0, 0) == globM(string(pattern), str, i, j)
+//@           invariant starIdx >= 0 ==> pattern[starIdx] == '*' && 0 <= matchIdx
+//@           invariant starIdx >= 0 ==> globM(string(pattern), str, 0, 0) == globM(string(pattern), str, starIdx, matchIdx)
+//@           invariant starIdx >= 0 ==> globM(string(pattern), str, starIdx+1, matchIdx) == globM(string(pattern), str, i, j)
+//@           invariant starIdx >= 0 ==> (forall k int :: {globM(string(pattern), str, starIdx+1, k)} matchIdx <= k && k <= len(str) && globM(string(pattern), str, starIdx+1, k) ==> k + j - matchIdx <= len(str) && globM(string(pattern), str, i, k + j - matchIdx))
+//@           decreases len(str) - matchIdx, len(str) - j, len(pattern) - i
+//@   loop 1: invariant 0 <= i && i <= len(pattern) && j == len(str)
+//@           invariant globM(string(pattern), str, 0, 0) == globM(string(pattern), str, i, j)
+//@           decreases len(pattern) - i
+//@
+//@ pure func wfGlob(p string, i int) bool =
+//@     (i < 0 || i >= len(p)) ? true : (p[i] == 92 ? (i+1 < len(p) && wfGlob(p, i+2)) : wfGlob(p, i+1))
+//@ func parseGlob
+//@   ensures [C13] reject: (result1 == nil) == wfGlob(pattern, 0)
+//@   ensures [C13] same: result1 == nil ==> string(result0) == pattern
+//@   loop 0: invariant 0 <= i && i <= len(pattern)
+//@           invariant wfGlob(pattern, 0) == wfGlob(pattern, i)
+//@           decreases len(pattern) - i
